@@ -63,7 +63,7 @@ class TokenParser(Parser):
             "ENUM",
         )
         TOK.add(r"(?<=})\s*(?P<defs>(?:[a-zA-Z0-9_]+\s*,\s*)+[a-zA-Z0-9_]+)\s*(?=;)", "DEFS")
-        TOK.add(r"(?P<name>\**?\s*[a-zA-Z0-9_]+)(?:\s*:\s*(?P<bits>\d+))?(?:\[(?P<count>[^;\n]*)\])?\s*(?=;)", "NAME")
+        TOK.add(r"(?P<name>(?:\*\s*)*[a-zA-Z0-9_]+)(?:\s*:\s*(?P<bits>\d+))?(?:\s*\[(?P<count>[^;\n\]]*(?:\]\s*\[[^;\n\]]*)*)\])?\s*(?=;)", "NAME")
         TOK.add(r"[a-zA-Z_][a-zA-Z0-9_]*", "IDENTIFIER")
         TOK.add(r"[{}]", "BLOCK")
         TOK.add(r"\$(?P<name>[^\s]+) = (?P<value>{[^}]+})\w*[\r\n]+", "LOOKUP")
@@ -295,12 +295,12 @@ class TokenParser(Parser):
         count_expression = d["count"]
 
         while name.startswith("*"):
-            name = name[1:]
+            name = name[1:].lstrip()
             type_ = self.cstruct._make_pointer(type_)
 
         if count_expression is not None:
             # Poor mans multi-dimensional array by abusing the eager regex match of count
-            counts = count_expression.split("][") if "][" in count_expression else [count_expression]
+            counts = re.split(r"\]\s*\[", count_expression)
 
             for count in reversed(counts):
                 if count == "":
